@@ -515,6 +515,12 @@ void Node::schedule_assigned_fetch(const protocol::AnnouncePayload& payload) {
     auto [it, inserted] = pending_chunk_fetches_.try_emplace(key);
     auto& state = it->second;
 
+    // The fetch is (re)scheduled from scratch: give back the slot an outstanding request still holds for its peer.
+    if (state.in_flight) {
+        note_dispatch_end(state);
+        state.in_flight = false;
+    }
+
     if (inserted) {
         state.chunk_id = payload.chunk_id;
         state.enqueue_time = now;
